@@ -279,7 +279,7 @@ def case_raw_oversize(rng) -> Case:
         ops.append(f"rawframe {rnonce(rng)} auto {rng.choice(SMALL[:14])} {rng.getrandbits(31)} {rng.choice(CHUNKS)}")
     declared = rng.choice(OVERSIZED)
     ops.append(f"rawframe {rnonce(rng)} {declared} {rng.choice([0, 0, 1, 20, 300])} {rng.getrandbits(31)} {rng.choice(CHUNKS)}")
-    ops.append("rawended 5000")
+    ops.append("rawended 10000")
     for _ in range(rng.randint(0, 2)):      # whatever follows is never read
         ops.append(f"rawframe {rnonce(rng)} auto {rng.choice(SMALL[:10])} {rng.getrandbits(31)} 0")
     ops.append("rawclose")
@@ -312,15 +312,29 @@ def case_raw_short(rng) -> Case:
     return Case(ops=ops, tag="raw-short-" + kind)
 
 
+def py_ends(stream: bytes) -> bool:
+    """does this byte stream contain (at a frame boundary) a header announcing more than 1 MiB?  Only used to choose how long
+    `rawended` may wait (long when the session is expected to end, short when it is expected to stay up); verdicts never
+    depend on it."""
+    off = 0
+    while len(stream) - off >= 16:
+        n = int.from_bytes(stream[off + 12:off + 16], "big")
+        if n > MIB:
+            return True
+        if len(stream) - off - 16 < n:
+            return False
+        off += 16 + n
+    return False
+
+
 def case_raw_garbage(rng) -> Case:
     ops = [f"open {rng.choice(KEYS)}", "rawopen"]
     n = rng.choice([16, 17, 20, 40, 100])
     blob = bytearray(rng.getrandbits(8) for _ in range(n))
     if rng.random() < 0.5:
         blob[12:16] = be32(rng.choice([0, 1, 3, n - 16, n - 15, MIB, MIB + 1, 70000]))
-    declared = int.from_bytes(blob[12:16], "big")
     ops.append(f"rawbytes {bytes(blob).hex()} {rng.choice(CHUNKS)}")
-    ops.append(f"rawended {5000 if declared > MIB else 80}")
+    ops.append(f"rawended {10000 if py_ends(bytes(blob)) else 80}")
     ops.append("rawclose")
     return Case(ops=ops, tag="raw-garbage")
 
@@ -427,7 +441,7 @@ def spec() -> Spec:
         extract=extract,
         nontrivial=nontrivial,
         post=post,
-        budget={"quick": 160, "thorough": 2500},
+        budget={"quick": 100, "thorough": 2000},
         search_budget={"quick": 400, "thorough": 5000},
         per_case_timeout=120.0,
         batch=400,
